@@ -155,6 +155,25 @@ func OptTime(name string) *time.Time {
 	if Choose(name+".nil", 2) == 1 {
 		return nil
 	}
-	t := Time(name)
+	t := TimeAnyLoc(name)
 	return &t
+}
+
+var anyLocA, anyLocB time.Location
+
+// TimeAnyLoc: an arbitrary instant in one of three locations (nil = UTC, A, B), for times that a caller or a decoder
+// hands in: comparing such VALUES (==, struct or map-key equality) also compares the location pointers and is not a
+// comparison of instants, which is what every rule of the properties is about (seeded change S44).
+func TimeAnyLoc(name string) time.Time { return TimeInLocs(name, 3) }
+
+// TimeInLocs: as TimeAnyLoc with k (2 or 3) locations to choose from; 2 suffice when every other time it meets is UTC.
+func TimeInLocs(name string, k int) time.Time {
+	t := Time(name)
+	switch Choose(name+".loc", k) {
+	case 1:
+		return t.In(&anyLocA)
+	case 2:
+		return t.In(&anyLocB)
+	}
+	return t
 }
